@@ -9,8 +9,9 @@
 (*           else keep the requested abscissa and the largest (UseMin: smallest) hit     *)
 (*   Finish                                                                              *)
 (* Named deviations: MaxHits = 2 is the removed `assert len(x) <= 2` (D12);              *)
-(* Margin = "max" is the probe as coded, y in [min - 0.1 max, max + 0.1 max], which is   *)
-(* too short when max < 0 (YDown > 2(G-1) exposes it); Margin = "range" uses 0.1 (max-min).  *)
+(* Margin = "max" is the probe as it was coded before the repair, y in [min - 0.1 max,   *)
+(* max + 0.1 max], too short when max < 0 (YDown > 2(G-1) exposes it); Margin = "range"   *)
+(* is the probe as coded now, margin 0.1 (max - min).                                     *)
 EXTENDS DesignCondOps, TLC, Json
 
 CONSTANTS G,          \* vertices on {0,2,..,2(G-1)}^2 (+ shifts), star centre (G-1, G-1)
